@@ -133,7 +133,25 @@ func isDistributive(expr *parser.Expr) bool {
 		if _, ok := distributiveAggregations[aggr.Op]; !ok {
 			return false
 		}
+		// A parameter that reads the storage, as in topk(scalar(foo), bar), would
+		// be evaluated by every remote engine over its own partition only.
+		if aggr.Param != nil && readsStorage(aggr.Param) {
+			return false
+		}
 	}
 
 	return true
+}
+
+// readsStorage reports whether the expression contains a selector.
+func readsStorage(expr parser.Expr) bool {
+	found := false
+	parser.Inspect(expr, func(node parser.Node, _ []parser.Node) error {
+		switch node.(type) {
+		case *parser.VectorSelector, *parser.MatrixSelector:
+			found = true
+		}
+		return nil
+	})
+	return found
 }
